@@ -40,9 +40,11 @@ func rbody(c rscen, ctx *hk.Ctx) {
 	var rm *hk.Remote
 	if cp.local {
 		l = s.BindLocal(1, true)
-		h, p := hk.Shape(0, l.Info.SSRC, 100, 1)
-		_ = h.SetExtension(hk.TwccExtID, []byte{0, 100})
-		_, _ = l.W.Write(&h, p, nil)
+		for q := uint16(98); q <= 100; q++ {
+			h, p := hk.Shape(0, l.Info.SSRC, q, 1)
+			_ = h.SetExtension(hk.TwccExtID, []byte{0, byte(q)})
+			_, _ = l.W.Write(&h, p, nil)
+		}
 	}
 	if cp.remote {
 		rm = s.BindRemote(1, true)
@@ -50,7 +52,7 @@ func rbody(c rscen, ctx *hk.Ctx) {
 		_ = h.SetExtension(hk.TwccExtID, []byte{0, 200})
 		_, _, _ = rm.ReadRTP(hk.MarshalRTP(h, p))
 	}
-	closeSeq, closeSeq2 := -1, -1
+	closeSeq, closeSeq2, unbindSeq := -1, -1, -1
 	var ths []*vsched.Thread
 	ths = append(ths, vsched.GoApp("traffic", func() {
 		for n := 0; n < 2; n++ {
@@ -67,7 +69,7 @@ func rbody(c rscen, ctx *hk.Ctx) {
 				_, _, _ = rm.ReadRTP(hk.MarshalRTP(h, p))
 			case "rtcp":
 				raw := hk.RawSR(hk.StreamInfo(false, 1, true).SSRC, 0xe000000000000000, 9)
-				raw = append(raw, hk.RawNACK(hk.StreamInfo(true, 1, true).SSRC, 100)...)
+				raw = append(raw, hk.RawNACKPair(hk.StreamInfo(true, 1, true).SSRC, 98, 0b11)...) // 98, 99, 100 in one FCI entry
 				raw = append(raw, hk.RawTWCC(hk.StreamInfo(true, 1, true).SSRC, 100, 2, byte(n))...)
 				_, _, _ = s.ReadRTCP(raw)
 			}
@@ -90,6 +92,7 @@ func rbody(c rscen, ctx *hk.Ctx) {
 		case "unbind":
 			if l != nil {
 				s.I.UnbindLocalStream(l.Info)
+				unbindSeq = s.T.SeqNow()
 			}
 			if rm != nil {
 				s.I.UnbindRemoteStream(rm.Info)
@@ -120,6 +123,21 @@ func rbody(c rscen, ctx *hk.Ctx) {
 	for _, r := range s.T.RTP {
 		if r.Seq > closeSeq && !r.App {
 			late++
+		}
+	}
+	if c.Kind == "nack-responder" && unbindSeq >= 0 {
+		// "after Unbind of a stream returns, no further [retransmission] is emitted (beyond one already in flight)"
+		per := map[int]int{}
+		for _, r := range s.T.RTP {
+			if r.Seq > unbindSeq && !r.App {
+				per[r.Thread]++
+			}
+		}
+		for _, n := range per {
+			if n > 1 {
+				ctx.Fail("C11:retransmissions-after-unbind-returned", "one request's goroutine wrote %d retransmissions after UnbindLocalStream had returned (one may be in flight)", n)
+				return
+			}
 		}
 	}
 	if late > 0 {
@@ -156,6 +174,9 @@ func rscenarios(tier string) []rscen {
 		}
 		if len(traffic) > 0 {
 			out = append(out, rscen{Kind: k.Name, Traffic: traffic[0], Life: "unbind", Horizon: h, Bound: b})
+		}
+		if k.Name == "nack-responder" {
+			out = append(out, rscen{Kind: k.Name, Traffic: "rtcp", Life: "unbind", Horizon: h, Bound: b})
 		}
 		if h > 0 && !strings.HasPrefix(k.Name, "cc-gcc") && k.Name != "pacing" {
 			// interceptors with goroutines of their own whose Close tolerates being called again
